@@ -9,6 +9,7 @@ import z3
 
 Z3_TIMEOUT_MS = int(os.environ.get("PVC_Z3_TIMEOUT_MS", "20000"))
 CVC5_TIMEOUT_S = int(os.environ.get("PVC_CVC5_TIMEOUT_S", "30"))
+CVC5_CROSS_S = int(os.environ.get("PVC_CVC5_CROSS_S", "8"))
 CVC5 = "/usr/bin/cvc5"
 # deterministic resource limit per solver call (z3 "rlimit"): verdicts do not depend on machine load
 RLIMIT = int(os.environ.get("PVC_RLIMIT", "40000000"))
@@ -178,7 +179,9 @@ def prove(assumptions, goal, timeout_ms=None, use_cvc5=True, cross_check=False, 
 def _finish(out, assumptions, goal, use_cvc5, cross_check):
     if (out["verdict"] == Verdict.UNKNOWN and use_cvc5) or cross_check:
         try:
-            res, secs = run_cvc5(_smt2(assumptions, goal))
+            # the cross-check of an obligation z3 has already decided gets a short budget; an open one the full budget
+            res, secs = run_cvc5(_smt2(assumptions, goal),
+                                 timeout_s=CVC5_TIMEOUT_S if out["verdict"] == Verdict.UNKNOWN else CVC5_CROSS_S)
         except Exception as e:  # noqa
             res, secs = "unknown", 0.0
             out["reason"] += " cvc5 error: %s" % e
